@@ -624,6 +624,16 @@ def run(ctx, scratch):
                 ctx.violation('GNNClassifier.fit', 'two fresh objects with identical random_state give different results',
                               case=args, expected=dict(labels=a['labels'], output=a['output']),
                               observed=dict(labels=b['labels'], output=b['output']), kind='repeatability', **fields)
+            c = r['ok'].get('refit') or {}
+            if 'err' in c:
+                ctx.violation('GNNClassifier.fit', 'fit(reinit=True) on an already fitted object raised', case=args,
+                              expected='a fit', observed=c, kind='repeatability_refit', **fields)
+            elif c and not (a['labels'] == c['labels'] and mat_close(a['output'], c['output'], 1e-12)
+                            and a['epochs'] == c['epochs']):
+                ctx.violation('GNNClassifier.fit', 'fit(reinit=True, random_state=s) on an already fitted object differs from '
+                              'a fresh object fitted with random_state=s', case=args,
+                              expected=dict(labels=a['labels'], output=a['output']),
+                              observed=dict(labels=c['labels'], output=c['output']), kind='repeatability_refit', **fields)
 
     ctx.rule = ('(a) all digraphs with loops on 1-2 nodes and sampled ones on 3 nodes x {left,right,both} x self_embeddings, then '
                 'structured random weighted graphs (13 families, n<=%d, zero-degree nodes and self loops included) cycling through '
